@@ -22,7 +22,7 @@ func withForm(c *EvalCase, form int) *EvalCase {
 }
 
 // C14: the same configuration in four executable forms (decoded, hand-built plain, hand-built + Preprocess*, builders)
-func cmdForms(prop string, n int, seed uint64, driver, out string) (*Result, error) {
+func cmdForms(prop string, n int, seed uint64, driver, out, corpusDir string) (*Result, error) {
 	prof := profileFor(prop)
 	root := NewRng(seed ^ hashSeed(prop+"forms"))
 	res := &Result{Prop: prop, Mode: "forms", Seed: seed, Distribution: map[string]int{},
@@ -33,8 +33,15 @@ func cmdForms(prop string, n int, seed uint64, driver, out string) (*Result, err
 		outs [4]*T
 	}
 	var cases []*fc
-	for i := 0; i < n; i++ {
-		c := GenEval(root.Fork(), &prof)
+	pre := loadCorpus(corpusDir, prop)
+	res.Distribution["corpus_cases"] = len(pre)
+	for i := 0; i < n+len(pre); i++ {
+		var c *EvalCase
+		if i < len(pre) {
+			c = pre[i]
+		} else {
+			c = GenEval(root.Fork(), &prof)
+		}
 		f := &fc{c: c}
 		for k := 0; k < 4; k++ {
 			f.outs[k] = runGo(withForm(c, k))
